@@ -336,4 +336,33 @@ theorem c_bp128_block_width (xs : List Nat) (hx : ∀ x ∈ xs, x < 2 ^ 64) (hn 
   ⟨Varint.Bridge.BP.bpMaxBitWidth64_eq xs hx hn fuel hf, BP128.lt_pow_bitWidth xs, BP128.bitWidth_le_64 xs hx,
    fun v hv => Varint.Bridge.BP.bpBitsNeeded64_eq v fuel hv (by omega)⟩
 
+
+/-- **the FOR block reader and the batch decoder on the translated C** (`varintFORDecodeBlock`, `varintFORBatchDecode`): on
+    the encoding of a good array the block reader stores exactly the requested slice (elements start … start+blockSize-1,
+    cut at the end; nothing when start is past the end) and the batch decoder does what `varintFORDecode` does -/
+theorem c_for_block_roundtrip (xs : List Nat) (g : FOR.Good xs) (start bsz : Nat) (rest : List Nat)
+    (hrest : ∀ b ∈ rest, b < 256) (h61 : xs.length < 2 ^ 61) (hsum : start + bsz < 2 ^ 64) (hst : start < 2 ^ 61)
+    (fuel : Nat) (hf : bsz < fuel) (hf2 : xs.length < fuel) :
+    Varint.Gen.C.forDecodeBlock fuel (Varint.Bridge.Tagged.bufOf (FOR.enc xs ++ rest)) start bsz =
+      some (((xs.drop start).take bsz).length, Varint.Bridge.storesFrom 0 ((xs.drop start).take bsz)) ∧
+    (∀ cap, xs.length ≤ cap →
+      Varint.Gen.C.forBatchDecode fuel (Varint.Bridge.Tagged.bufOf (FOR.enc xs ++ rest)) cap =
+        some (xs.length, Varint.Bridge.storesFrom 0 xs)) := by
+  have hb : ∀ b ∈ FOR.enc xs ++ rest, b < 256 := by
+    intro b hb
+    rcases List.mem_append.mp hb with hb | hb
+    · exact Varint.Bridge.FORDec.enc_lt xs g b hb
+    · exact hrest b hb
+  have hh := FOR.readHdr_enc xs g rest
+  obtain ⟨_, _, hw1, hw8, _⟩ := FOR.analyze_facts xs g
+  constructor
+  · refine (Varint.Bridge.FORDec.forDecodeBlock_eq _ hb start bsz fuel _ hh hsum ?_ hf _
+      (for_block_roundtrip xs g start bsz rest)).1
+    have : start * (FOR.analyze xs).offsetWidth ≤ start * 8 := Nat.mul_le_mul_left start hw8
+    simp only []
+    omega
+  · intro cap hcap
+    have hd := (c_for_decode_roundtrip xs g cap hcap rest hrest fuel hf2 h61).1
+    exact Varint.Bridge.FORDec.forBatchDecode_eq _ hb cap fuel _ hh _ hd (by intro hgt; simp only [] at hgt; omega)
+
 end Varint.Props.C02
